@@ -75,6 +75,7 @@ func checkC15(p *Prog, r *Report) {
 
 	checkConstants(p, r)
 	checkLongintSiblings(p, r)
+	checkDecoderRejects(p, r)
 	checkNumbering(p, r, w)
 	r.Trust("the protocol-27 table in wireseq.go:specSeq and rules_c15.go:checkConstants is a transcription of rsync 2.6.x flist.c/io.c/rsync.h as cited by the repository's own comments; the rdev row uses the split --devices/--specials condition of rsync ≥ 2.6.7 speaking protocol < 31")
 	r.Assume("Go fs.FileMode type bits per file type (char devices carry ModeDevice|ModeCharDevice)")
